@@ -1,18 +1,18 @@
 SPECIFICATION Spec
 CONSTANTS
   Fam = "prog"
-  MinN = 3
-  N = 3
+  MinN = 6
+  N = 6
   KindSet = {"comp"}
   TypSet = {"base"}
   GrpSet = {1}
-  LabelSet = {"g1", "g1+g2", "g1+opt", "g2", "none", "opt", "req", "req+opt"}
+  LabelSet = {"g1", "g2", "none", "opt", "req"}
   PrioSet = {1}
-  MaxAdds = 1
-  AskSet = {"basic", "sub", "topo", "walk"}
+  MaxAdds = 0
+  AskSet = {"specs"}
   KeyMode = "any"
   WalkMech = "bfs"
-  Prefix <- NoPrefix
+  Prefix <- CondPrefix
 INVARIANT TypeOK
 INVARIANT RegistryInverse
 INVARIANT RegistryIsDeclared
